@@ -47,7 +47,7 @@ Proof.
     { destruct (cmd_is_stat c); [now apply stat_cmd_plug_okU | now apply power_cmd_plug_okU]. }
     destruct (if cmd_is_stat c then stat_cmd_plug st p true else power_cmd_plug st p c) as [st' [m|]]; cbn [fst] in X; [|exact X].
     unfold queue_target. destruct (m_parent m); (eapply outP_same_out; [|exact X]); reflexivity.
-  - apply outP_emitf; [exact H|]. unfold okU. cbn [fst snd]. destruct (cmd_is_stat c); reflexivity.
+  - apply outP_emitf; [exact H|]. unfold okU. cbn [fst snd]. transitivity (bs "unknown plug specified: "%string ++ p ++ [LF]); [exact (unknown_line c p) | symmetry; exact (unknown_line CStat p)].
 Qed.
 
 Lemma targets_okU c ts : forall st, outP okU st -> outP okU (fold_left (target_one c) ts st).
@@ -135,7 +135,7 @@ Proof.
       + destruct (HA y Iy) as ((WY & OY & _ & CY) & _). destruct (HW w2 Iw2) as ((WW & OW & _ & CW) & _).
         destruct (cmd_cases c NS) as [EC|EC].
         * assert (NE : wts <> []) by (intros E0; rewrite E0 in Iw2; destruct Iw2).
-          apply (any_related_false (s_tab b) _ (REL EC NE) y w2); [apply in_or_app; now left | apply in_or_app; now right | apply (wf_plug _ _ _ WW)|].
+          apply (any_related_false b _ (REL EC NE) y w2); [apply in_or_app; now left | apply in_or_app; now right | apply (wf_plug _ _ _ WW)|].
           rewrite EY, ER2. exact IR2.
         * rewrite EA in PAF. rewrite CW, EC in PAF. rewrite (plugname_active_off acts y (m_plug q)) in PAF; [discriminate | exact Iy | exact EY | now rewrite CY].
       + destruct (HW y Iy) as (_ & NE). rewrite EY, EP in NE. contradiction. }
@@ -173,7 +173,7 @@ Lemma conclude st c ts st' d' :
 Proof.
   intros CLT KOK REL [RCLR RSIL RPOLL RLOG RTS1 RTS2 ROUT] FCNT FU FTS.
   set (kts := known_targets st ts) in *. set (uts := unknown_targets st ts) in *.
-  set (FFs := forest_of (s_tab st)). set (M0s := statmap_of (s_tstat st)).
+  set (FFs := forest_of (s_tab st)) in *. set (M0s := statmap_of (s_tstat st)).
   assert (EKN : filter (known FFs) ts = kts).
   { unfold kts, known_targets. apply filter_ext. intros p. apply known_forest. }
   assert (EUN : map (fun p => bs "unknown plug specified: "%string ++ p ++ [LF]) (filter (fun p => negb (known FFs p)) ts) = map unk_line uts).
@@ -192,7 +192,7 @@ Proof.
   fold FFs in PERM, STAT. fold A in PERM, STAT.
   rewrite EX. cbn [fst snd]. split.
   - unfold results. eapply Permutation_trans; [apply (res_split (lnx st c kts))|].
-    { intros e I. pose proof (ROUT e I) as J. unfold just in J. unfold okE. destruct (fst e); [exact (proj1 J) | exact J | exact I0]. }
+    { intros e I. pose proof (ROUT e I) as J. unfold just in J. unfold okE. destruct (fst e); [exact (proj1 J) | exact J | constructor]. }
     rewrite FU. apply Permutation_app_head. eapply Permutation_trans; [apply Permutation_map; apply cnt_perm; exact FCNT|]. apply Permutation_sym. exact PERM.
   - intros k. rewrite STAT.
     assert (LOGD : c <> CStat -> forall p, In p kts -> carried FFs (s_fail st) (scmd_of c) kts M0s p = true -> logged c (s_log st') p).
@@ -208,19 +208,19 @@ Proof.
     { intros H. unfold M0s. rewrite !st_get_statmap, (RTS1 k H). reflexivity. }
     unfold sfinal. destruct c; cbn [scmd_of] in *.
     + now rewrite FTS.
-    + destruct (existsb _ kts) eqn:X.
+    + match goal with |- context [existsb ?g kts] => destruct (existsb g kts) eqn:X end.
       * apply existsb_exists in X as (p & Ip & X). apply andb_true_iff in X as [CA E]. apply text_eqb_eq in E.
         rewrite (RTS2 k p); [reflexivity | apply LOGD; [discriminate | exact Ip | exact CA] | now left].
       * apply SAMEK. intros p LP. destruct (CARR p LP) as [Ip CA]. split; [|discriminate]. intros ->.
-        apply not_true_iff_false in X. apply X. apply existsb_exists. exists p. split; [exact Ip|]. now rewrite CA, text_eqb_refl.
-    + destruct (existsb _ kts) eqn:X.
+        apply not_true_iff_false in X. apply X. apply existsb_exists. exists p. split; [exact Ip|]. cbv beta. now rewrite CA, text_eqb_refl.
+    + match goal with |- context [existsb ?g kts] => destruct (existsb g kts) eqn:X end.
       * apply existsb_exists in X as (p & Ip & X). apply andb_true_iff in X as [CA E].
         rewrite (RTS2 k p); [reflexivity | apply LOGD; [discriminate | exact Ip | exact CA]|].
         apply orb_true_iff in E as [E|E]; [left; now apply text_eqb_eq | right; split; [reflexivity|]]. unfold FFs in E. now rewrite (desc_equiv _ _ _ CLT) in E.
       * apply SAMEK. intros p LP. destruct (CARR p LP) as [Ip CA]. apply not_true_iff_false in X. split.
-        -- intros ->. apply X. apply existsb_exists. exists p. split; [exact Ip|]. now rewrite CA, text_eqb_refl.
+        -- intros ->. apply X. apply existsb_exists. exists p. split; [exact Ip|]. cbv beta. now rewrite CA, text_eqb_refl.
         -- intros _. destruct (is_desc (s_tab st) k p) eqn:D; [|reflexivity]. exfalso. apply X. apply existsb_exists. exists p. split; [exact Ip|].
-           unfold FFs. rewrite CA, (desc_equiv _ _ _ CLT), D. now rewrite orb_true_r.
+           cbv beta. rewrite CA. unfold FFs. rewrite (desc_equiv _ _ _ CLT), D. now rewrite orb_true_r.
 Qed.
 
 Section WithHostlist.
@@ -298,12 +298,14 @@ Proof.
     assert (RP : related_pair FFs kts = true).
     { destruct (any_related_ex _ _ AR) as (mp & mq & Ip & Iq & D). destruct (DESCM mp mq Ip Iq D) as (Kp & Kq & NEQ & DS).
       exact (related_pair_true FFs kts _ _ Kp Kq NEQ DS). }
-    unfold expected_of, expected. fold FFs M0s. rewrite EKN, EUN, EC. cbn [scmd_of]. rewrite RP. cbn [fst snd]. split.
-    - unfold results. cbn [st2 set_wait set_active s_out]. rewrite !fold_emit_out, !res_app, !map_app.
+    unfold expected_of, expected. fold FFs M0s. rewrite EKN, EUN. cbn [scmd_of]. rewrite RP. cbn [fst snd]. split.
+    - unfold results. cbn [st2 set_wait set_active s_out]. rewrite !fold_emit_out, !res_app, !map_app, <- app_assoc.
       apply Permutation_app.
       + eapply Permutation_trans; [apply (res_split (fun _ => []) _ (OUT1 _))|]. rewrite RT, UT. cbn [map]. now rewrite app_nil_r.
-      + change f_phased_wait with f_phased_active. rewrite <- map_app, <- map_app, (res_results (fun m => fmt f_phased_active [m_plug m])).
-        rewrite <- (map_map m_plug (fun p => fmt f_phased_active [p])). apply Permutation_map. exact PK.
+      + change f_phased_wait with f_phased_active. rewrite !(res_results (fun m => fmt f_phased_active [m_plug m])), <- map_app.
+        rewrite <- (map_map m_plug (fun p => fmt f_phased_active [p])).
+        rewrite (map_ext (fun p => fmt f_phased_active [p]) (fun p => line p (bs "cannot turn on parent and child"%string)) refusal_line).
+        apply Permutation_map. exact PK.
     - intros k. now rewrite TS2, TS1. }
   (* everything else: the loop runs under the refined invariant *)
   assert (MAIN : (c = COn -> wts <> [] -> any_related (s_tab st) (acts ++ wts) = false) ->
@@ -311,18 +313,16 @@ Proof.
       minv st c 0 [] (s_active st2) [] st2 kts uts /\ s_delayed st2 = [] /\ rinv st c kts 0 (s_active st2) st2).
   { intros REL. eexists. split; [reflexivity|]. rewrite WT.
     assert (O1 : outP (just st c kts 0 []) st1).
-    { intros e I. pose proof (OUT1 (fun _ => []) e I) as H. unfold okE in H. unfold just. destruct (fst e); auto.
-      exfalso. destruct e as [t l]. assert (X : In p (tres (s_out st1))). { apply (in_tres (t, l)); [exact I|]. cbn [fst] in *. destruct t; try discriminate; congruence. }
-      rewrite RT in X. destruct X. }
+    { intros e I. pose proof (OKU1 e I) as H. unfold okU in H. unfold just. destruct e as [t l]. cbn [fst snd] in *. destruct t as [x|p|]; [|exact H|constructor].
+      exfalso. assert (X : In x (tres (s_out st1))) by (apply (in_tres (TResult x, l)); [exact I | reflexivity]). rewrite RT in X. destruct X. }
     assert (PH : wts <> [] -> (if cmd_is_stat c then st1 else phased_power_on_check st1 c) = st1).
     { intros NE. destruct c; try reflexivity. change (cmd_is_stat COn) with false. cbv iota. unfold phased_power_on_check. change (cmd_is_on COn) with true. cbv iota.
       rewrite ET1, AT, WT, (REL eq_refl NE). reflexivity. }
     destruct (start_assemble st c st1 acts wts _ CFG1 FL1 AT WT DL1 COV1 RT UT TS1 LOG1 HA HW REL) as (I & _ & _ & D).
     pose proof (start_R st c kts st1 acts wts CFG1 AT WT DL1 TS1 LOG1 HA HW REL HK O1) as R.
     cbn zeta in I, D, R. apply (minv_perm _ _ _ _ _ _ _ _ kts _ CT) in I.
-    destruct wts as [|w0 r0] eqn:EW; [auto|]. rewrite <- EW in *. rewrite PH by (rewrite EW; discriminate).
-    assert (E2 : forall X Y : state, match wts with [] => X | _ :: _ => Y end = Y) by (intros; rewrite EW; reflexivity).
-    rewrite E2 in I, D, R. rewrite ?E2. auto. }
+    destruct wts as [|w0 r0] eqn:EW; cbv iota in I, D, R |- *; [split; [exact I | split; [exact D | exact R]]|].
+    rewrite PH by discriminate. split; [exact I | split; [exact D | exact R]]. }
   assert (RUN : (c = COn -> wts <> [] -> any_related (s_tab st) (acts ++ wts) = false) -> (c = COn -> related_pair FFs kts = false) ->
     exists st', match drain (fuel_for (match s_wait st1 with [] => st1 | _ => send_initial_parent_queries (if cmd_is_stat c then st1 else phased_power_on_check st1 c) end)) sched
                              (match s_wait st1 with [] => st1 | _ => send_initial_parent_queries (if cmd_is_stat c then st1 else phased_power_on_check st1 c) end) with
